@@ -1,4 +1,5 @@
 import St4sd.Model.Confine
+import St4sd.Lemmas.C18Confine
 /-!
 Witnesses for C18: the code as committed (`checkOld` = textual prefix test of data.py 227-232,
 `validateOld` = `Manifest.validate` refusing absolute keys only, deployment without guard) violates the
@@ -46,6 +47,103 @@ theorem normpath_repair_would_be_unsound :
     normalize false [] ([Seg.name ['a'], Seg.name ['b']] ++ [Seg.up, Seg.up]) = [] ∧
     escapes (extractAll dest ⟨fs0, []⟩ ms) = true ∧
     checkFixed dest ms = false := by decide
+
+/-! ### the textual-normalisation rule for link targets (`checkNormpath`) is unsound
+
+In each archive below no member name has a `..` component or is absolute, every link target is relative and
+its `os.path.normpath` against the directory holding the link (archive root for a hard link) is still under
+the destination, so `checkNormpath` accepts; extraction nevertheless creates a file outside `dest = /i/w`
+without any error.  The repaired check refuses all of them before anything is touched. -/
+
+/-- chain of two links, the second one placed *through* the first: `a/s -> ..` is the working directory; `a/s/esc -> ..` is textually `a`, but it is created as `/i/w/esc` and points to `/i`; the file member `a/s/esc/P` is written to `/i/P` -/
+theorem normpath_link_rule_unsound_on_chain :
+    let ms := [Member.sym (parsePath ['a', '/', 's']) (parsePath ['.', '.']),
+               Member.sym (parsePath ['a', '/', 's', '/', 'e', 's', 'c']) (parsePath ['.', '.']),
+               Member.file (parsePath ['a', '/', 's', '/', 'e', 's', 'c', '/', 'P'])]
+    (ms.all fun m => descending m.name) = true ∧ checkNormpath dest ms = true ∧
+    escapes (stageExtractNormpath dest ⟨fs0, []⟩ ms) = true ∧
+    (stageExtractNormpath dest ⟨fs0, []⟩ ms).2 = none ∧
+    (stageExtractNormpath dest ⟨fs0, []⟩ ms).1.fs.get [['P'], ['i']] = some (Node.file [['P'], ['i']]) ∧
+    checkFixed dest ms = false ∧ (stageExtractFixed dest ⟨fs0, []⟩ ms).2 = some Err.rejected ∧
+    (stageExtractFixed dest ⟨fs0, []⟩ ms).1.log = [] := by decide
+
+/-- the same with three links, each placed through the previous one, below a deeper directory -/
+theorem normpath_link_rule_unsound_on_chain_depth3 :
+    let ms := [Member.sym (parsePath ['a', '/', 'b', '/', 's']) (parsePath ['.', '.']),
+               Member.sym (parsePath ['a', '/', 'b', '/', 's', '/', 't']) (parsePath ['.', '.']),
+               Member.sym (parsePath ['a', '/', 'b', '/', 's', '/', 't', '/', 'u']) (parsePath ['.', '.']),
+               Member.file (parsePath ['a', '/', 'b', '/', 's', '/', 't', '/', 'u', '/', 'P'])]
+    (ms.all fun m => descending m.name) = true ∧ checkNormpath dest ms = true ∧
+    escapes (stageExtractNormpath dest ⟨fs0, []⟩ ms) = true ∧
+    (stageExtractNormpath dest ⟨fs0, []⟩ ms).2 = none ∧
+    (stageExtractNormpath dest ⟨fs0, []⟩ ms).1.fs.get [['P'], ['i']] = some (Node.file [['P'], ['i']]) ∧
+    checkFixed dest ms = false ∧ (stageExtractFixed dest ⟨fs0, []⟩ ms).2 = some Err.rejected ∧
+    (stageExtractFixed dest ⟨fs0, []⟩ ms).1.log = [] := by decide
+
+/-- a hard link member copies an earlier link into another directory: `a/b/s -> ../..` is the working directory, its second name `h` (no `..` in the hard link target `a/b/s`) has the same text `../..` one directory higher and points to `/`; `h/P` is written to `/P` -/
+theorem normpath_link_rule_unsound_on_hardlinked_link :
+    let ms := [Member.dir (parsePath ['a', '/', 'b']),
+               Member.sym (parsePath ['a', '/', 'b', '/', 's']) (parsePath ['.', '.', '/', '.', '.']),
+               Member.hard (parsePath ['h']) (parsePath ['a', '/', 'b', '/', 's']),
+               Member.file (parsePath ['h', '/', 'P'])]
+    (ms.all fun m => descending m.name) = true ∧ checkNormpath dest ms = true ∧
+    escapes (stageExtractNormpath dest ⟨fs0, []⟩ ms) = true ∧
+    (stageExtractNormpath dest ⟨fs0, []⟩ ms).2 = none ∧
+    (stageExtractNormpath dest ⟨fs0, []⟩ ms).1.fs.get [['P']] = some (Node.file [['P']]) ∧
+    checkFixed dest ms = false ∧ (stageExtractFixed dest ⟨fs0, []⟩ ms).2 = some Err.rejected ∧
+    (stageExtractFixed dest ⟨fs0, []⟩ ms).1.log = [] := by decide
+
+/-- a link whose *target* passes through an earlier link: `a/s -> ..`, `m -> a/s/..` is textually `a`, really the parent of the working directory; `m/P` is written to `/i/P` -/
+theorem normpath_link_rule_unsound_on_target_through_link :
+    let ms := [Member.sym (parsePath ['a', '/', 's']) (parsePath ['.', '.']),
+               Member.sym (parsePath ['m']) (parsePath ['a', '/', 's', '/', '.', '.']),
+               Member.file (parsePath ['m', '/', 'P'])]
+    (ms.all fun m => descending m.name) = true ∧ checkNormpath dest ms = true ∧
+    escapes (stageExtractNormpath dest ⟨fs0, []⟩ ms) = true ∧
+    (stageExtractNormpath dest ⟨fs0, []⟩ ms).2 = none ∧
+    (stageExtractNormpath dest ⟨fs0, []⟩ ms).1.fs.get [['P'], ['i']] = some (Node.file [['P'], ['i']]) ∧
+    checkFixed dest ms = false ∧ (stageExtractFixed dest ⟨fs0, []⟩ ms).2 = some Err.rejected ∧
+    (stageExtractFixed dest ⟨fs0, []⟩ ms).1.log = [] := by decide
+
+/-! ### the hypothesis `Safe` of `extract_confined` is needed: inputs staged by `link` into the same directory
+
+`Job.stageIn` stages every reference of a component into the same working directory.  A reference staged with
+`:link` leaves an *absolute* symbolic link there (`stageLink`), so the state is not `Safe`; an archive extracted
+afterwards whose member is named `<that link>/evil` has no `..`, nothing absolute — the repaired check accepts
+it — and `tarfile` writes through the link into the linked source directory.  Recorded as known finding
+`C18-extract-through-staged-link`; the harness replays the same input on the real code. -/
+
+/-- the working directory `/i/w` after link-staging the input `/o` -/
+def fsLinked : Fs := (stageLink dest ⟨fs0, []⟩ ['/', 'o']).1.fs
+
+/-- link-staging `/o`, then extracting `[file o/evil]`: accepted, no error, `/o/evil` is created outside the
+working directory -/
+theorem link_then_extract_escapes :
+    let ms := [Member.file (parsePath ['o', '/', 'e', 'v', 'i', 'l'])]
+    (stageLink dest ⟨fs0, []⟩ ['/', 'o']).2 = none ∧
+    fsLinked.get [['o'], ['w'], ['i']] = some (Node.link true [Seg.name ['o']]) ∧
+    checkFixed dest ms = true ∧ (stageExtractFixed dest ⟨fsLinked, []⟩ ms).2 = none ∧
+    escapes (stageExtractFixed dest ⟨fsLinked, []⟩ ms) = true ∧
+    (stageExtractFixed dest ⟨fsLinked, []⟩ ms).1.fs.get [['e', 'v', 'i', 'l'], ['o']] =
+      some (Node.file [['e', 'v', 'i', 'l'], ['o']]) := by decide
+
+/-- the same through a *descending* archive link to the staged name: `x -> o`, `x/evil` -/
+theorem link_then_extract_escapes_via_descending_member_link :
+    let ms := [Member.sym (parsePath ['x']) (parsePath ['o']), Member.file (parsePath ['x', '/', 'e', 'v', 'i', 'l'])]
+    checkFixed dest ms = true ∧ (stageExtractFixed dest ⟨fsLinked, []⟩ ms).2 = none ∧
+    escapes (stageExtractFixed dest ⟨fsLinked, []⟩ ms) = true := by decide
+
+/-- that state violates the hypothesis of `extract_confined` (the link under `dest` is absolute) … -/
+theorem linked_state_not_safe : ¬ Safe dest fsLinked := by
+  intro h
+  have := h [['o'], ['w'], ['i']] (Node.link true [Seg.name ['o']]) (by decide) (by decide)
+  simp [NodeOk] at this
+
+/-- … whereas copy-staging the same input keeps the later extraction inside: the member lands in `/i/w/o/evil` -/
+theorem copy_then_extract_stays_inside :
+    let ms := [Member.file (parsePath ['o', '/', 'e', 'v', 'i', 'l'])]
+    let st := (stageCopy dest ⟨fs0, []⟩ ['/', 'o'] RefKind.dir).1
+    (stageExtractFixed dest ⟨st.fs, []⟩ ms).2 = none ∧ escapes (stageExtractFixed dest ⟨st.fs, []⟩ ms) = false := by decide
 
 /-- C18c: manifest key `../x` passes `Manifest.validate` as committed and is deployed to `/i/x` -/
 theorem old_manifest_parent_key_escapes :
